@@ -885,20 +885,56 @@ def _slim(impl):
 # run
 # ---------------------------------------------------------------------------------------------
 
+def link_named(chk: Check, rel: str) -> bool:
+    """Compile coq/link/<rel> against the regenerated text.  If it does not check as a whole, compile every theorem
+    of it on its own so that the verdict names the lemmas that broke (`link:<lemma>`)."""
+    import re
+    import shutil as _sh
+    n_before = len(chk.breaks)
+    if chk.coq_link(rel):
+        return True
+    src = (VERIF / 'coq' / 'link' / rel).read_text()
+    first = re.search(r'^(\(\*[^\n]*\n(?:[^\n]*\n)*?)?Theorem ', src, re.M)
+    cut = src.index('Theorem ')
+    # the header is everything before the comment block that precedes the first theorem
+    head_end = src.rfind('\n\n', 0, cut) + 2
+    header = src[:head_end]
+    blocks = re.findall(r'(Theorem (\w+)\b.*?Print Assumptions \2\.)', src[head_end:], re.S)
+    named = []
+    for text, name in blocks:
+        f = chk.gen / f'{name}.v'
+        f.write_text(header + text + '\n')
+        r = chk._coqc(f, ['-R', str(chk.gen), 'Gen'])
+        if r.returncode != 0:
+            named.append(name)
+            chk.broken(f'link:{name}', (r.stdout + r.stderr)[-1500:])
+    for o in chk.obligations:
+        if o['name'].startswith(rel + ':') and not o['ok'] and o['name'].split(':', 1)[1] not in named:
+            o['ok'] = True          # this lemma still checks on its own
+    if named:
+        # the whole-file entry is subsumed by the named ones
+        chk.breaks[:] = [b for i, b in enumerate(chk.breaks) if not (i >= n_before and b['what'] == f'proof:{rel}')]
+    return False
+
+
 def extract(chk: Check) -> bool:
-    name = 'extract:missions/oag.py+writable_database.py+units.py+types/time.py'
-    try:
-        text = c13_extract.extract_all(REPO)
-    except py2coq.Untranslatable as e:
-        chk.obligations.append({'name': name, 'ok': False})
-        chk.broken(name, str(e))
+    """Each source function is extracted under its own obligation name; link lemmas need all parts."""
+    text, ok = c13_extract.HEAD, True
+    for name, fn in c13_extract.extract_parts(REPO):
+        try:
+            text += fn()
+            chk.obligations.append({'name': name, 'ok': True})
+        except py2coq.Untranslatable as e:
+            chk.obligations.append({'name': name, 'ok': False})
+            chk.broken(name, str(e))
+            ok = False
+    if not ok:
         return False
-    chk.obligations.append({'name': name, 'ok': True})
     if chk.coq_compile_gen('C13_Extracted', text) is None:
         return False
     chk.notes['tree_state'] = {'geodesic_args_swapped(F10)': 'swap_latlon : bool := true' in text,
                                'raw_dates_to_add_schedule(F11)': 'raw_dates : bool := true' in text}
-    return chk.coq_link('C13_Link.v')
+    return link_named(chk, 'C13_Link.v')
 
 
 def nontrivial(case, orc) -> bool:
